@@ -41,13 +41,19 @@ Definition omin (a b : oQ) : oQ := if oltb b a then b else a.
 Lemma ole_refl a : ole a a.
 Proof. destruct a; simpl; auto. lra. Qed.
 Lemma ole_trans a b c : ole a b -> ole b c -> ole a c.
-Proof. destruct a, b, c; simpl; intros; auto; try lra; tauto. Qed.
+Proof.
+  destruct a as [x|], b as [y|], c as [z|]; simpl; intros H1 H2; try exact I; try contradiction.
+  exact (Qle_trans _ _ _ H1 H2).
+Qed.
 Lemma oeq_refl a : oeq a a.
 Proof. destruct a; simpl; auto. lra. Qed.
 Lemma oeq_sym a b : oeq a b -> oeq b a.
 Proof. destruct a, b; simpl; auto. intros; lra. Qed.
 Lemma oeq_trans a b c : oeq a b -> oeq b c -> oeq a c.
-Proof. destruct a, b, c; simpl; intros; auto; try lra; tauto. Qed.
+Proof.
+  destruct a as [x|], b as [y|], c as [z|]; simpl; intros H1 H2; try exact I; try contradiction.
+  exact (Qeq_trans _ _ _ H1 H2).
+Qed.
 Lemma ole_antisym a b : ole a b -> ole b a -> oeq a b.
 Proof. destruct a, b; simpl; intros; auto. lra. Qed.
 Lemma oeq_ole a b : oeq a b -> ole a b.
